@@ -103,6 +103,11 @@ LimitStopsPremature(cfg, a, b, call, ret) ==
 LargeLimitChangesNothing(cfg, a, b, call, ret) ==
   (call = "build" /\ a.finished = 0 /\ a.started = 1 /\ cfg.tmo = 0 /\ (cfg.limit <= 0 \/ cfg.limit > cfg.n)) =>
      (ret = "self" /\ b.completed = 1 /\ b.history_len = cfg.n /\ b.valid = cfg.valid)
+\* tmo = 2: a time limit that no single step exceeds but the whole build exceeds at least twice over
+\* (measured by the harness with its virtual clock): building from the fresh started tableau must time out
+CumulativeTimeoutFires(cfg, a, b, call, ret) ==
+  (cfg.tmo = 2 /\ call = "build" /\ a.finished = 0 /\ a.started = 1 /\ a.history_len = 0) =>
+     (ret = "raise:ProofTimeoutError" /\ b.finished = 1 /\ b.premature = 1)
 OnlyDocumentedErrors(ret) == ret \in {"none", "entry", "self", "ok", "raise:IllegalStateError", "raise:ProofTimeoutError"}
 HistoryMonotone(a, b) == b.history_len >= a.history_len /\ (a.finished = 1 => b.finished = 1)
 
@@ -118,6 +123,7 @@ ClauseFail(cfg, hasargAfter, a, b, call, ret) ==
   ELSE IF ~TimeoutLeavesFinished(b, ret) THEN "TimeoutLeavesFinished"
   ELSE IF ~LimitStopsPremature(cfg, a, b, call, ret) THEN "LimitStopsPremature"
   ELSE IF ~LargeLimitChangesNothing(cfg, a, b, call, ret) THEN "LargeLimitChangesNothing"
+  ELSE IF ~CumulativeTimeoutFires(cfg, a, b, call, ret) THEN "CumulativeTimeoutFires"
   ELSE ""
 
 =============================================================================
